@@ -92,7 +92,7 @@ def do_op(chan, op):
         elif op == "unlink":
             chan._unlink()
         elif op == "fileno":
-            chan.fileno()
+            return ("fd", chan.fileno())
         elif op == "close":
             chan.close()
     except socket.timeout:
@@ -116,11 +116,15 @@ def make_body(scn):
             chan.fileno()
         try:
             ths = []
+            handed_out = []      # every descriptor a fileno() call returned to the application
+
+            def run(prog):
+                for op in prog:
+                    r = do_op(chan, op)
+                    if isinstance(r, tuple) and r and r[0] == "fd":
+                        handed_out.append(r[1])
             for prog in progs:
-                def run(prog=prog):
-                    for op in prog:
-                        do_op(chan, op)
-                ths.append(vthreading.Thread(target=run))
+                ths.append(vthreading.Thread(target=run, args=(prog,)))
             s.branching = True
             s.line_points = True
             for t in ths:
@@ -141,6 +145,19 @@ def make_body(scn):
             readable = bool(r)
             expect = (len(chan.in_buffer) > 0 or len(chan.in_stderr_buffer) > 0
                       or chan.eof_received or chan.closed)
+            # every descriptor ever handed to the application must tell the same story
+            for ofd in handed_out:
+                if ofd != fd:
+                    try:
+                        rr, _, _ = select.select([ofd], [], [], 0)
+                        if bool(rr) != expect:
+                            readable = "stale-fd:%s" % bool(rr)
+                    except (OSError, ValueError):
+                        readable = "stale-fd:closed"
+                    try:
+                        os.close(ofd)
+                    except OSError:
+                        pass
             return readable, expect, len(chan.in_buffer), len(chan.in_stderr_buffer)
         finally:
             p = chan._pipe
@@ -163,8 +180,9 @@ def scenarios(tier):
                 out.append((io, ie, False, True, ((a,), (b,))))
         # fileno() itself racing a feed / eof / read
         for (io, ie) in [(0, 0), (1, 0)]:
-            for b in ["feed_out", "feed_err", "recv_all", "eof", "unlink"]:
+            for b in ["feed_out", "feed_err", "recv_all", "eof", "unlink", "fileno"]:
                 out.append((io, ie, False, False, (("fileno",), (b,))))
+        out.append((0, 0, False, False, (("fileno",), ("fileno", "feed_out"))))
         out.append((0, 0, False, True, (("feed_out", "recv_all"), ("feed_err", "recv_err_all"))))
         out.append((0, 0, False, True, (("recv_all_t5",), ("feed_out",))))
         out.append((1, 1, False, True, (("unlink",), ("recv_all",))))
@@ -176,8 +194,10 @@ def scenarios(tier):
                 for a, b in itertools.combinations_with_replacement(ops, 2):
                     out.append((io, ie, eof0, True, ((a,), (b,))))
         for (io, ie) in inits:
-            for b in ops:
+            for b in ops + ["fileno"]:
                 out.append((io, ie, False, False, (("fileno",), (b,))))
+            out.append((io, ie, False, False, (("fileno",), ("fileno", "feed_out"))))
+            out.append((io, ie, False, False, (("fileno", "recv_all"), ("fileno", "feed_err"))))
         # two ops per thread
         two = [("feed_out", "recv_all"), ("feed_err", "recv_err_all"), ("recv_all", "feed_out"),
                ("feed_out", "feed_out"), ("recv1", "recv1"), ("feed_out", "eof")]
@@ -206,6 +226,8 @@ def key_of(scn, readable, expect):
     kind = "not-readable-although-data-or-eof" if expect else "readable-although-empty"
     if readable == "blocks":
         kind = "reader-or-feeder-hangs-in-pipe-clear"
+    if isinstance(readable, str) and readable.startswith("stale-fd"):
+        kind = "descriptor-handed-out-earlier-disagrees(orphaned-pipe)"
     return "%s:%s" % (kind, "||".join(ops))
 
 
